@@ -137,8 +137,19 @@ def h_blockmean(ctx):
             for x in wc:
                 ctx.assume(x > 0)
     rec = _V2WRecorder(ctx.sym, vu.variance_to_weights)
+    if cfg.get("mem"):
+        from symx.harness import relayout
+
+        sh2 = tuple(cfg["pshape"])
+        e, n = e.reshape(sh2), n.reshape(sh2)
+        data = [relayout(d.reshape(sh2), cfg["mem"]) for d in data]
+        if weights is not None:
+            weights = [relayout(x.reshape(sh2), cfg["mem"]) for x in weights]
     for a in [e, n] + data + (weights or []):
         a.setflags(write=False)
+    ef, nf = np.ravel(e), np.ravel(n)
+    dataf = [np.ravel(d) for d in data]
+    weightsf = None if weights is None else [np.ravel(x) for x in weights]
     bm = vd.BlockMean(shape=shape, region=region, uncertainty=(mode == "uncertainty"), center_coordinates=cfg.get("center", False))
     darg = tuple(data) if ncomp > 1 else data[0]
     warg = None if weights is None else (tuple(weights) if ncomp > 1 else weights[0])
@@ -160,24 +171,24 @@ def h_blockmean(ctx):
         ev = []
         for bi, b in enumerate(blocks):
             idx = [p for p in range(npts) if members[p] == b]
-            ws = [weights[c][p] for p in idx] if weights is not None else [1] * len(idx)
+            ws = [weightsf[c][p] for p in idx] if weights is not None else [1] * len(idx)
             sw = sum(ws)
-            m = sum(wi * data[c][p] for wi, p in zip(ws, idx)) / sw
+            m = sum(wi * dataf[c][p] for wi, p in zip(ws, idx)) / sw
             ctx.claim("block value is the (weighted) mean of exactly its members, in ascending block order", eq(means[c][bi], m))
             if mode == "none":
-                ss = sum((data[c][p] - m) ** 2 for p in idx)
+                ss = sum((dataf[c][p] - m) ** 2 for p in idx)
                 ev.append((ss / len(idx), (ss / (len(idx) - 1)) if len(idx) > 1 else None))
             elif mode == "uncertainty":
                 ev.append((1 / sw, None))
             else:
-                ev.append((sum(wi * (data[c][p] - m) ** 2 for wi, p in zip(ws, idx)) / sw, None))
+                ev.append((sum(wi * (dataf[c][p] - m) ** 2 for wi, p in zip(ws, idx)) / sw, None))
             if c == 0:
                 if cfg.get("center"):
                     i, j = divmod(b, ne)
                     ctx.claim("center_coordinates gives the centre of that very block", And(eq(coords[0][bi], w + (j + Fraction(1, 2)) * (ee - w) / ne), eq(coords[1][bi], s + (i + Fraction(1, 2)) * (no - s) / nn)))
                 else:
-                    ce = sum(e[p] for p in idx) / len(idx)
-                    cn = sum(n[p] for p in idx) / len(idx)
+                    ce = sum(ef[p] for p in idx) / len(idx)
+                    cn = sum(nf[p] for p in idx) / len(idx)
                     ctx.claim("block coordinates are the mean of the member coordinates", And(eq(coords[0][bi], ce), eq(coords[1][bi], cn)))
         exp_var.append(ev)
     if True:
@@ -238,6 +249,7 @@ def _cfg_bm(tier, seed):
     out.append({"shape": (1, 2), "members": [1, 0, 1], "ncomp": 2, "mode": "weighted", "center": True})
     out.append({"shape": (1, 2), "members": [1, 0, 1], "ncomp": 2, "mode": "none"})
     out.append({"shape": (1, 2), "members": [1, 0, 1, 0], "ncomp": 2, "mode": "uncertainty"})
+    out.append({"shape": (1, 2), "members": [1, 0, 0, 1], "ncomp": 2, "mode": "weighted", "mem": "F", "pshape": (2, 2)})
     if tier == "thorough":
         out.append({"shape": (2, 2), "members": [0, 3, 3, 1], "ncomp": 3, "mode": "uncertainty", "center": True})
         out.append({"shape": (2, 2), "members": [0, 3, 3, 1], "ncomp": 3, "mode": "none"})
